@@ -36,6 +36,10 @@ DimsStimuli ==
     UNION {{St("dimscheck", [N |-> N, hasM |-> hm[1], M |-> hm[2], dims |-> d, excl |-> TRUE]) :
               hm \in {<<FALSE, 0>>, <<TRUE, N - Len(d)>>, <<TRUE, N>>}} :
            d \in UNION {InjSeqs(N, len) : len \in 1..(N - 1)}}
+    \cup
+    \* the empty selection: dims = <<>> selects no mode, exclude_dims = <<>> excludes none
+    {St("dimscheck", [N |-> N, hasM |-> hm[1], M |-> hm[2], dims |-> <<>>, excl |-> ex]) :
+       hm \in {<<FALSE, 0>>, <<TRUE, N>>}, ex \in BOOLEAN}
     : N \in 1..MaxN}
 
 RowMats(width, vals, maxrows) == SeqsUpTo([1..width -> vals], maxrows)
